@@ -43,18 +43,18 @@ def traversal_kernel(tier, which):
     for tag, kn in enumerate(KINDS):
         quick = kn in ('Comp', 'Alias', 'TemplateInstantiation', 'Function', 'Enum', 'TemplateAlias')
         if 'edges' in which:
-            gen.append('#[kani::proof] #[kani::unwind(8)] fn edges_%s() { edges_case(%d) }' % (kn, tag))
+            gen.append('#[kani::proof] #[kani::unwind(18)] fn edges_%s() { edges_case(%d) }' % (kn, tag))
             hs.append(H('edges_' + kn, path=P + 'edges_' + kn, timeout=900, tier='quick' if quick else 'thorough',
                         desc='TypeKind::%s: edges emitted by the real Trace impls == references the IR node holds (opaque: no fields / bases)' % kn, sample={'X_kind': kn, 'opaque': 'symbolic'}))
         if 'step' in which and kn in ('Comp', 'Alias', 'TemplateInstantiation', 'Function', 'Enum', 'TemplateAlias', 'Pointer', 'Int'):
             for pa, pn in ((True, 'all'), (False, 'codegen')):
                 hn = 'step_%s_%s' % (kn, pn)
-                gen.append('#[kani::proof] #[kani::unwind(14)] fn %s() { step_case(%d, %s) }' % (hn, tag, 'true' if pa else 'false'))
+                gen.append('#[kani::proof] #[kani::unwind(18)] fn %s() { step_case(%d, %s) }' % (hn, tag, 'true' if pa else 'false'))
                 hs.append(H(hn, path=P + hn, timeout=900, weight=2, tier='quick' if kn in ('Comp', 'TemplateInstantiation') or (kn == 'Function' and not pa) else 'thorough',
                             desc='one ItemTraversal::next() with the queue top = a %s node, predicate %s_edges, arbitrary seen/queue: closure, minimality, queue bookkeeping' % (kn, pn), sample={'X_kind': kn, 'predicate': pn}))
         if 'block' in which and kn in ('Comp', 'Alias', 'Pointer'):
-            gen.append('#[kani::proof] #[kani::unwind(14)] fn blocklisted_%s() { blocklist_case(%d) }' % (kn, tag))
-            hs.append(H('blocklisted_' + kn, path=P + 'blocklisted_' + kn, timeout=900, weight=2, tier='quick' if kn == 'Comp' else 'thorough',
+            gen.append('#[kani::proof] #[kani::unwind(6)] fn blocklisted_%s() { blocklist_case(%d) }' % (kn, tag))
+            hs.append(H('blocklisted_' + kn, path=P + 'blocklisted_' + kn, timeout=1800, weight=2, tier='thorough',
                         desc='AllowlistedItemsTraversal: a blocklisted %s root is never yielded, what it refers to is' % kn, sample={'root_kind': kn, 'blocklisted': True}))
     hs.append(H('codegen_edges_table', path=P + 'codegen_edges_table', desc='codegen_edges over every EdgeKind x CodegenConfig', sample='15 kinds x 64 configs'))
     har = open(os.path.join(G, 'harness', 'ir_traversal.rs')).read().replace('/*GENERATED*/', '\n    '.join(gen))
